@@ -403,8 +403,105 @@ def disabled_parameter_reads_none_and_stays_disabled(vi: int, enabled: bool, new
 ]
 
 
+# ---------------------------------------------------------------------------------------------------------------
+# file level: real write_ui_json / read_ui_json with a workspace on disk, driven by the symx explorer with symbolic
+# switches (which forms are optional / enabled / in value or property mode)
+# ---------------------------------------------------------------------------------------------------------------
+import os as _os
+import shutil as _shutil
+import uuid as _uuid
+from copy import deepcopy as _deepcopy
+
+import numpy as _np
+
+from .common import Scenario, run_property, HERE as _HERE
+
+
+class FileRoundTrip(Scenario):
+    """InputFile.write_ui_json -> read_ui_json with entities, workspace path and optional parameters"""
+    pid = "C14"
+
+    def body(self, cx):
+        from geoh5py.workspace import Workspace
+        from geoh5py.objects import Points
+        from geoh5py.ui_json import InputFile, templates
+        from geoh5py.ui_json.constants import default_ui_json
+        obj_opt, obj_en = bool(cx.bool("object_optional")), bool(cx.bool("object_enabled"))
+        data_opt, data_en = bool(cx.bool("data_optional")), bool(cx.bool("data_enabled"))
+        dv_is_value = bool(cx.bool("data_value_is_value"))
+        flt = [1.5, float("inf"), float("-inf")][int(cx.int("float_choice", 0, 3))]
+        flt_opt, flt_en = bool(cx.bool("float_optional")), bool(cx.bool("float_enabled"))
+        work = _os.path.join(_HERE, ".work", f"c14_{_os.getpid()}_{_uuid.uuid4().hex[:8]}")
+        _os.makedirs(work, exist_ok=True)
+        cx.on_exit(lambda: _shutil.rmtree(work, ignore_errors=True))
+        with Workspace.create(_os.path.join(work, "ws.geoh5")) as ws:
+            pts = Points.create(ws, vertices=_np.zeros((3, 3)), name="pts")
+            d1 = pts.add_data({"d1": {"values": _np.arange(3.0)}})
+            d2 = pts.add_data({"d2": {"values": _np.arange(3.0) + 1}})
+            ui = _deepcopy(default_ui_json)
+            ui["geoh5"] = ws
+            ui["object"] = templates.object_parameter(value=str(pts.uid), mesh_type=[pts.entity_type.uid])
+            ui["data"] = templates.data_parameter(data_group_type=None, parent="object", association="Vertex", data_type="Float",
+                                                  value=str(d1.uid)) if False else {
+                "main": True, "label": "Data", "parent": "object", "association": "Vertex", "dataType": "Float",
+                "value": str(d1.uid)}
+            ui["dv"] = {"main": True, "label": "DV", "parent": "object", "association": "Vertex", "dataType": "Float",
+                        "isValue": dv_is_value, "property": None if dv_is_value else str(d2.uid), "value": 2.5}
+            ui["flt"] = {"main": True, "label": "F", "value": flt}
+            ui["txt"] = {"main": True, "label": "T", "value": "some text"}
+            for key, opt, en in (("object", obj_opt, obj_en), ("data", data_opt, data_en), ("flt", flt_opt, flt_en)):
+                if opt:
+                    ui[key]["optional"] = True
+                    ui[key]["enabled"] = en
+            a = InputFile(ui_json=ui)
+            da = dict(a.data)
+            a_enabled = {k: v.get("enabled", True) for k, v in a.ui_json.items() if isinstance(v, dict)}
+            demoted = InputFile.demote(dict(da))
+            path = a.write_ui_json("rt.ui.json", path=work)
+        b = InputFile.read_ui_json(path)
+        db = b.data
+        b_enabled = {k: v.get("enabled", True) for k, v in b.ui_json.items() if isinstance(v, dict)}
+        cx.prove(list(da) == list(db), "same parameters after the round trip", "file round trip")
+        cx.prove(a_enabled == b_enabled, "same enabled states after the round trip", "file round trip")
+
+        def same(x, y):
+            if hasattr(x, "uid") and hasattr(y, "uid"):
+                return x.uid == y.uid and type(x).__name__ == type(y).__name__
+            if isinstance(x, Workspace) and isinstance(y, Workspace):
+                return _os.path.realpath(str(x.h5file)) == _os.path.realpath(str(y.h5file))
+            return type(x) is type(y) and x == y
+        for k in da:
+            if k in db:
+                cx.prove(same(da[k], db[k]), f"parameter {k!r} reads back the same value", "file round trip")
+        # expected values from the switches
+        cx.prove((da["object"] is None) == (obj_opt and not obj_en) and (da["data"] is None) == (data_opt and not data_en)
+                 and (da["flt"] is None) == (flt_opt and not flt_en), "a parameter is None exactly when it is disabled",
+                 "file round trip")
+        if not (obj_opt and not obj_en):
+            cx.prove(getattr(da["object"], "uid", None) == pts.uid, "identifier promoted to the workspace entity", "promotion")
+        if dv_is_value:
+            cx.prove(db["dv"] == 2.5, "data-or-value in value mode reads the number", "file round trip")
+        else:
+            cx.prove(getattr(db["dv"], "uid", None) == d2.uid, "data-or-value in property mode reads the entity", "promotion")
+        # promote then demote returns the original identifiers
+        for k, ident in (("object", pts.uid), ("data", d1.uid)):
+            if da[k] is not None:
+                cx.prove(str(demoted[k]).strip("{}") == str(ident), f"demoting {k!r} returns the original identifier", "promotion")
+        cx.prove(isinstance(db["geoh5"], Workspace), "the workspace path is re-opened as a workspace", "promotion")
+        return "ok"
+
+
 def main(tier, seed):
-    return run_xh(
+    rc1 = run_property(
+        "C14", [FileRoundTrip()], tier, seed,
+        assumptions=["file level: the real InputFile.write_ui_json / read_ui_json (real JSON text, real workspace on disk under "
+                     "/verif/.work) driven by the symx explorer; only the optional/enabled/isValue switches and the choice of the "
+                     "float value are symbolic, every feasible combination is one path"],
+        outside=["group-optional members (open finding F-C14-3)", "drillhole-group data, range and file forms at file level"],
+        bounds="object / data / data-or-value / float / string forms x optional x enabled x isValue x {1.5, inf, -inf}",
+        expected_outcomes={"FileRoundTrip": {"ok"}}, jobs=1, validate_max=0,
+    )
+    rc2 = run_xh(
         "C14", PRELUDE, CONDS, tier, seed,
         assumptions=[
             "the JSON text step is the identity on JSON values; the harness asserts that what reaches it is a JSON value "
@@ -421,4 +518,6 @@ def main(tier, seed):
         functions=["geoh5py.shared.utils:stringify, dict_mapper, nan2str, inf2str, as_str_if_uuid, none2str, str2none, str2uuid, is_uuid",
                    "geoh5py.ui_json.utils:str2inf, path2workspace, flatten, set_enabled, truth, is_form",
                    "geoh5py.ui_json.input_file:InputFile.__init__/ui_json/data/stringify/demote/numify/update_ui_values"],
+        merge_evidence=True,
     )
+    return 1 if 1 in (rc1, rc2) else max(rc1, rc2)
